@@ -18,8 +18,11 @@ TEXT_CLASSES = {
     'nonascii': [u'caf\xe9', u'\xfc\xdf'],
     'astral': [u'中文', u'\U0001f600 ok'],
     'edges': [u'', u' lead', u'trail ', u' '],
+    'backslash': [u'a\\b', u'\\\\', u'c\\', u'\\n'],
 }
-LATIN1_OK = ('plain', 'delims', 'quotes', 'newlines', 'nul', 'nonascii', 'edges')
+LATIN1_OK = ('plain', 'delims', 'quotes', 'newlines', 'nul', 'nonascii', 'edges', 'backslash')
+# classes without delimiter / quote / line-break characters: the only ones QUOTE_NONE (no escapechar) can write at all
+NO_SPECIALS = ('plain', 'backslash', 'nonascii', 'astral')
 TYPED = [None, 1, 2.5, True, u'txt']
 
 
